@@ -55,6 +55,11 @@ CHECKS = {
    technique="explicit-state BFS over transaction / reload / revert / clock histories of the real TxnPoliciesAccessor with its vacuum goroutines (virtual time); schedule exploration of request-vs-reload, reload-vs-reload and response-vs-vacuum",
    text="Every history up to depth 6 (8 thorough) of {request / response of two transaction slots, reload through a new policies file, revert, revert-diagnosis-free, clock steps 1/5/24/31 s} runs on the real accessor (real MapVacuum goroutines, files in a scratch dir, HAProxy = in-process RoundTripper). A look-up within 30 s of a transaction's first look-up must return the version it saw first; a transaction starting after a reload must get the newest. Schedules (<=2 preemptions) cover a first look-up racing a reload, two overlapping reloads with a transaction pinned in between, and a response at exactly 30 s racing the vacuum passes.",
    note="versions are recognised by a marker endpoint; state key = accessor dump (versions and pins relative to current) + slot ages; admin API always answers 200"),
+
+ "C01": dict(level="model_checking", engine="seqx-bfs+schedx", design="§3 C01",
+   technique="explicit-state BFS over request/clock histories through a real engine (Stream from generated quota+flow YAML) against a per-(quota, group) window reference; schedule exploration of concurrent requests",
+   text="8 quota configurations (11 thorough): flat, grouped by header, parent/child hierarchy with own limit or allocation percentage, grouping on parent and/or child. Every history up to depth 5-6 of requests (child / parent-only URL x group header a|b|absent) and clock steps of 1 s and W runs through a real streams.Stream (quota loader, system flows, Limiter, GenerateResponse); each verdict must equal the reference (refused iff the own quota or an ancestor is full for its current window) and admissions per window never exceed max. Schedules (<=2 preemptions, points at the quota / shared-state locks) cover two concurrent requests on one key and a child + parent request sharing the parent.",
+   note="whole-second arrival instants; scheduling decisions only at sync operations of streams/resources/quota and streams/lunar-context; one known finding (double charge when child and parent limiters both see a request)"),
 }
 NA_REASON = "check not built yet in this round (work in progress; planned per DESIGN.md §3)"
 def main():
